@@ -51,7 +51,8 @@ def dump_event(e, id):
         'meta': meta,
     }
 
-    return json.dumps(data)
+    # '~' only occurs inside JSON strings: escaped, the packet delimiter cannot be part of a packet
+    return json.dumps(data).replace('~', '\\u007e')
 
 
 def dump_value(v):
@@ -68,7 +69,7 @@ def dump_value(v):
         'value': v._value,
         'meta': meta,
     }
-    return json.dumps(data)
+    return json.dumps(data).replace('~', '\\u007e')
 
 
 def load_value(v):
